@@ -52,6 +52,7 @@ def main(argv):
         with extract.Workspace() as ws:
             facts = ws.lib_facts_many(targets)
             models = [TargetModel(facts[t]) for t in targets]
+            ck.ws = ws
             mod.run(ck, models, tier, *( [ws] if getattr(mod, "NEEDS_WS", False) else [] ))
     except extract.ExtractError as e:
         print("extraction failed: %s" % e)
